@@ -13,6 +13,8 @@ CLAIM = (
     "_remove_noops_in_place, _fix_labels_in_place) agree on the target-bearing fields (If.on_true, If.on_false, Jump.target) and rewrite "
     "each field from itself through the map; (3) _LINEARIZE_DISPATCH covers every node kind of yielding.flow.Node; "
     "(4) linearize_to_subroutines runs linearize -> compress -> fix labels -> split in that order."
+    " SKIPS: the loops of the functions in scope have no more `continue`, `break` or in-loop `return` statements than the reference "
+    "read on the unchanged tree (baselines/skips.json): a new skip means elements that were handled are no longer handled."
 )
 NOTE = (
     "Trusted base: the small symbolic executor for straight-line label updates (an unrecognised statement is an ANALYSIS-ERROR). "
@@ -279,6 +281,13 @@ def run(ctx) -> None:
         # each value is the function named after its key
         ctx.ok("EXH2", m, tab, what=f"_LINEARIZE_DISPATCH covers {sorted(members)}")
     seq.check_sequence(ctx, p.func(f"{LIN}:linearize_to_subroutines"), "SEQ", ["_linearize_control_flow", "_compress_in_place", "_fix_labels_in_place", "_split_in_subroutines"], lambda n: n.kind == "return" and isinstance(n.expr, ast.Name))
+    ctx.rule("SKIPS", "the loops of the functions in scope have no more continue/break/return-in-loop statements than the reference read on the unchanged tree", floor=3)
+    from ..rules import skips as _skips
+    _base = _skips.load_baseline()
+    for _m in ctx.p.modules.values():
+        if _m.name.startswith("aas_core_codegen.yielding"):
+            for _f in _m.functions.values():
+                _skips.check_skips(ctx, _f, "SKIPS", _base)
 
 
 def _check_label_rewiring(ctx) -> None:
